@@ -239,15 +239,22 @@ theorem fs_accesses_contained (fs : FS) (c : Cfg) (path orig : Bytes) (hfs : fs 
 /-- **sidecar_only_for_servable_file.** A precompressed sidecar is served only in place of a file
     that would itself be served: its name is `f ++ suffix` for a configured precompressor whose
     encoding `AcceptedEncodings` returned, where `f` is below the root, not hidden and an existing
-    file; the bytes are what the filesystem holds under exactly that name.  The sidecar's own name
-    is not tested against the hide list (`sidecar_honours_hide_full_fails` below). -/
+    file; the sidecar itself is not hidden, and the bytes are what the filesystem holds under
+    exactly that name. -/
 theorem sidecar_only_for_servable_file (fs : FS) (c : Cfg) (path orig p : Bytes) (id : Nat) (enc : Bytes)
     (hfs : fs [] = .missing) (h : (serve fs c path orig).1 = .sidecar p id enc) :
     ∃ f suf, p = f ++ suf ∧ (enc, suf) ∈ c.pre ∧ enc ∈ c.accepted ∧
-      UnderS c.rootC f ∧ c.hidden f = false ∧ (∃ id0, fs f = .file id0) ∧ fs p = .file id := by
+      UnderS c.rootC f ∧ c.hidden f = false ∧ (∃ id0, fs f = .file id0) ∧ fs p = .file id ∧ c.hidden p = false := by
   have := serve_justified fs c path orig hfs
   rw [h] at this
   exact this
+
+/-- **sidecar_honours_hide.** The bytes of a precompressed sidecar that matches a hide rule are
+    never sent. -/
+theorem sidecar_honours_hide (fs : FS) (c : Cfg) (path orig p : Bytes) (id : Nat) (enc : Bytes)
+    (hfs : fs [] = .missing) (h : (serve fs c path orig).1 = .sidecar p id enc) : c.hidden p = false := by
+  obtain ⟨_, _, _, _, _, _, _, _, _, hh⟩ := sidecar_only_for_servable_file fs c path orig p id enc hfs h
+  exact hh
 
 /-- without a configured precompressor, or without an accepted encoding, no sidecar is served -/
 theorem no_sidecar_unless_negotiated (fs : FS) (c : Cfg) (path orig p : Bytes) (id : Nat) (enc : Bytes)
@@ -269,27 +276,20 @@ def gzCfg : Cfg :=
   { cwd := str "/w", root := str "/srv", hide := [str "*.gz"], index := [], browse := true, passThru := false,
     canonical := true, pre := [(str "gzip", str ".gz")], accepted := [str "br", str "gzip"] }
 
-example : (serve gzFS gzCfg (str "/a.txt") (str "/a.txt")).1 = .sidecar (str "/srv/a.txt.gz") 2 (str "gzip") := by decide
-/-
-**sidecar_honours_hide** — full statement (violated by the code, known finding
-`hidden-sidecar-served`):
+-- not hidden: the sidecar is served
+example : (serve gzFS { gzCfg with hide := [] } (str "/a.txt") (str "/a.txt")).1
+    = .sidecar (str "/srv/a.txt.gz") 2 (str "gzip") := by decide
+-- hidden by `*.gz`: the file itself is served
+example : (serve gzFS gzCfg (str "/a.txt") (str "/a.txt")).1 = .file (str "/srv/a.txt") 1 := by decide
 
-    (serve fs c path orig).1 = .sidecar p id enc → c.hidden p = false
--/
-
-/-- **sidecar_honours_hide_full_fails.** The sidecar matches the hide rule `*.gz`: requested
-    directly it is 404, it is not listed — and its bytes are still what a gzip-accepting client
-    gets for `/a.txt`. -/
-theorem sidecar_honours_hide_full_fails :
-    ∃ (fs : FS) (c : Cfg) (path orig p : Bytes) (id : Nat) (enc : Bytes),
-      fs [] = .missing ∧ (serve fs c path orig).1 = .sidecar p id enc ∧ c.hidden p = true :=
-  ⟨gzFS, gzCfg, str "/a.txt", str "/a.txt", str "/srv/a.txt.gz", 2, str "gzip", by decide⟩
-
-theorem hidden_sidecar_is_served :
+/-- **sidecar_honours_hide_old_code_fails.** The lookup as it was (`findSidecarOld`): the sidecar
+    matches the hide rule `*.gz` — requested directly it is 404, it is not listed — and it was
+    still chosen as what a gzip-accepting client gets for `/a.txt`. -/
+theorem sidecar_honours_hide_old_code_fails :
     gzCfg.hidden (str "/srv/a.txt.gz") = true ∧
     (serve gzFS gzCfg (str "/a.txt.gz") (str "/a.txt.gz")).1 = .notFound ∧
     (serve gzFS gzCfg (str "/") (str "/")).1 = .listing (str "/srv") [str "a.txt"] ∧
-    (serve gzFS gzCfg (str "/a.txt") (str "/a.txt")).1 = .sidecar (str "/srv/a.txt.gz") 2 (str "gzip") := by decide
+    (findSidecarOld gzFS gzCfg (str "/srv/a.txt") gzCfg.accepted).1 = some (str "/srv/a.txt.gz", 2, str "gzip") := by decide
 example : (serve gzFS { gzCfg with accepted := [] } (str "/a.txt") (str "/a.txt")).1 = .file (str "/srv/a.txt") 1 := by decide
 
 example : (serve wFS wCfg (str "/") (str "/")).2 = [str "/srv", str "/srv"] := by decide
